@@ -140,6 +140,7 @@ type Session struct {
 	openErr          string
 	leaks            []Mismatch
 	conformance      []Mismatch
+	leftModel        string // the implementation legitimately left the behaviour (policy): go to the epilogue
 	partial, full    int // compactions seen by earlier incarnations (before a reopen)
 	life             string
 	failWrites       int32
@@ -685,7 +686,31 @@ func (s *Session) Do(st Step) error {
 		if _, err := sc.AwaitEvent(mark, stepTimeout, "persister.error"); err != nil {
 			return err
 		}
-		return sc.AwaitParked("persister.beforeUpdate", stepTimeout)
+		// MossColl!PersisterFail: nothing changes, the persister offers the same stack again.  A persister
+		// that goes back to waiting for a stack instead has given the failed one away: a conformance
+		// difference that the checks report (C13, C20), not a dead driver.
+		deadline := time.Now().Add(stepTimeout)
+		waiting := 0
+		for {
+			if err := sc.AwaitParked("persister.beforeUpdate", 5*time.Millisecond); err == nil {
+				return nil
+			}
+			if cs, err := s.coll.Stats(); err == nil && cs.TotPersisterWaitBeg > cs.TotPersisterWaitEnd {
+				waiting++
+			} else {
+				waiting = 0
+			}
+			if waiting >= 20 {
+				// how the mutations are offered again is policy (R2): the driver stops following the behaviour
+				// here, and the epilogue -- every gate open, idle rounds, everything read again against this
+				// step's expectation -- decides whether anything was lost
+				s.leftModel = "after the failed LowerLevelUpdate the persister waits for a new stack instead of offering the same one again"
+				return nil
+			}
+			if time.Now().After(deadline) {
+				return sc.AwaitParked("persister.beforeUpdate", time.Millisecond)
+			}
+		}
 	case "PersisterSwap":
 		sc.Release("persister.beforeSwap")
 		deadline := time.Now().Add(stepTimeout)
@@ -1273,6 +1298,25 @@ func (s *Session) epilogue(idx int, last Step) (r StepResult) {
 		h.close()
 	}
 	s.roll = nil
+	// C20 after the idle rounds: zero gauges mean everything is in the lower level
+	if cs, err := s.coll.Stats(); err == nil && s.D.Mode != "mem" && cs.CurDirtyOps == 0 && cs.CurDirtyBytes == 0 && cs.CurDirtySegments == 0 {
+		gm := s.checkLower(exp.Ref, "gauges0.lower")
+		// (the model's prediction of what only carries structure describes the last step, not the state after
+		// the idle rounds: here a difference that concerns nothing but the existence of child collections is
+		// the open finding C20-structure-only-batch; any difference in a key is not)
+		structural := true
+		for _, m := range gm {
+			if !strings.HasSuffix(m.What, ".names") && !strings.HasSuffix(m.What, ".child") {
+				structural = false
+			}
+		}
+		for i := range gm {
+			if exp.So || structural {
+				gm[i].Note = "structure-only"
+			}
+		}
+		r.Mismatches = append(r.Mismatches, gm...)
+	}
 	// drained: the lower level holds the reference after some prefix of the batches (all of them, unless
 	// the last ones only carry structure: open finding)
 	if s.D.Mode != "mem" {
@@ -1586,6 +1630,11 @@ func Replay(id int, d Dims, steps []Step) (res Result) {
 			}
 			res.Status = "infra"
 			return
+		}
+		if s.leftModel != "" {
+			res.Steps = append(res.Steps, StepResult{Step: i, Act: st.Act, Drift: []string{s.leftModel}})
+			steps = steps[:i+1]
+			break
 		}
 		full := !d.Sparse || i == len(steps)-1 || st.Act == "TakeSnapshot"
 		sr := s.Observe(i, st, full)
